@@ -141,7 +141,9 @@ class Gen:
 
     def stmt(self, d, in_loop, in_fun, ret):
         r = self.r
-        k = r.randrange(13)
+        k = r.randrange(15 if "aclosure" in self.features else 13)
+        if k == 14:
+            k = 13
         nested = d < 3
         if k <= 2:
             ty = self.pick(TYPES)
@@ -202,6 +204,24 @@ class Gen:
             v = self.fresh()
             self.scopes[-1][v] = "Int"
             return "let %s = fun(%s) { %s }\nlet %s = %s(%s)" % (f, p, body, v, f, arg)
+        if k == 13 and "aclosure" in self.features and nested:
+            # fully annotated lambda with its own return type and an early `return` (the lambda's type, not the
+            # enclosing function's)
+            hint = {"Int": "Int", "Bool": "Bool", "Str": "String"}
+            f = self.fresh("g")
+            p = self.fresh("p")
+            pty = self.pick(["Int", "Bool", "Str"])
+            lret = self.pick([t for t in ("Int", "Bool", "Str") if t != ret] or ["Int"])
+            self.scopes.append({p: pty})
+            cond = self.expr("Bool", 1)
+            early = self.expr(lret, 1)
+            last = self.expr(lret, 1)
+            self.scopes.pop()
+            arg = self.expr(pty, 2)
+            v = self.fresh()
+            self.scopes[-1][v] = lret
+            return ("let %s = fun(%s: %s): %s {\n  if %s { return %s }\n  %s\n}\nlet %s = %s(%s)"
+                    % (f, p, hint[pty], hint[lret], cond, early, last, v, f, arg))
         return "println(string_repr(%s))" % self.expr("Int", 1)
 
     def fun(self):
